@@ -32,12 +32,13 @@ type xRev struct {
 }
 
 type xOpt struct {
-	Big   bool   `json:"big"`
-	W     []int  `json:"w"`
-	Flate bool   `json:"flate"`
-	Eol   string `json:"eol"`
-	Split bool   `json:"split"`
-		Compact bool `json:"compact"`
+	Big     bool   `json:"big"`
+	W       []int  `json:"w"`
+	Flate   bool   `json:"flate"`
+	Eol     string `json:"eol"`
+	Split   bool   `json:"split"`
+	Compact bool   `json:"compact"`
+	Sparse  bool   `json:"sparse"`
 }
 
 type xCase struct {
@@ -83,12 +84,26 @@ func xProject(o core.Object, err error, bl int) int {
 	return -2
 }
 
+// xNum: the object number of specification object k (1..n), of the length holder (n+1), the catalog (n+2) and the
+// page tree root (n+3). With sparse numbering the specification objects sit at 1, 4, 7, ... so that the merged
+// cross-reference table has fewer entries than its highest object number.
+func xNum(c *xCase, k int) int {
+	n := len(c.Revs[0].Ops)
+	if !c.Opt.Sparse {
+		return k
+	}
+	if k <= n {
+		return 3*k - 2
+	}
+	return 3*n - 2 + (k - n)
+}
+
 func xBuild(c *xCase) ([]byte, int, error) {
 	n := len(c.Revs[0].Ops)
-	lh, cat, pgs := n+1, n+2, n+3
-	next := n + 10
+	lh, cat, pgs := xNum(c, n+1), xNum(c, n+2), xNum(c, n+3)
+	next := pgs + 7
 	if c.Opt.Compact {
-		next = n + 4
+		next = pgs + 1
 	}
 	bl := 6
 	if c.Opt.Big {
@@ -119,8 +134,8 @@ func xBuild(c *xCase) ([]byte, int, error) {
 			lhItem()
 		}
 		for i, op := range rv.Ops {
-			num := i + 1
-			v := (ri+1)*10 + num
+			num := xNum(c, i+1)
+			v := (ri+1)*10 + (i + 1)
 			switch op {
 			case "plain":
 				items = append(items, pdfw.Item{Num: num, Val: pdfw.Int(v)})
@@ -252,7 +267,7 @@ func c04Case(i int, raw []byte) Result {
 				}
 				continue
 			}
-			o, gerr := rd.GetObject(k)
+			o, gerr := rd.GetObject(xNum(&c, k))
 			got := xProject(o, gerr, bl)
 			want := bl
 			if k <= n {
